@@ -40,6 +40,8 @@ type GraphSpec struct {
 	// Quote puts quotation marks into the literal text around parameter references ("%p%", '%p%', `%p%`, and an
 	// unbalanced 5" %p%): quotes in plain text mean nothing to the pattern syntax.
 	Quote bool `json:"quote,omitempty"`
+	// Repeat writes the first reference of every parameter twice before the others ("%a%-%a%:%b%").
+	Repeat bool `json:"repeat,omitempty"`
 }
 
 func (g GraphSpec) svc(i int) string {
@@ -76,6 +78,9 @@ func (g GraphSpec) Config() cfg.Config {
 					ref = []string{`say "` + ref + `"!`, `'` + ref + `'`, "`" + ref + "`", `5" ` + ref}[(i+n)%4]
 				}
 				text += ref
+				if g.Repeat && n == 0 {
+					text += "-" + ref
+				}
 				n++
 			}
 		}
